@@ -151,7 +151,18 @@ const Type* TypeChecker::valueTypeOf(const Type* ty)
                     new PointerType(coreTy->asArrayType()->elementType()));
         return semaModel_->keepType(std::move(ptrTy));
     }
-    return coreTy;
+    return enumeratedTypeAsInt(coreTy);
+}
+
+const Type* TypeChecker::enumeratedTypeAsInt(const Type* ty)
+{
+    // An enumerated type is an integer type, compatible with an
+    // implementation-defined one (6.7.2.2-4): taken as int, the type of
+    // the enumeration constants.
+    if (ty->kind() == TypeKind::Tag
+            && ty->asTagType()->kind() == TagTypeKind::Enum)
+        return semaModel_->compilation()->canonicalBasicType(BasicTypeKind::Int_S);
+    return ty;
 }
 
 bool TypeChecker::isAssignableType(const Type* ty, const SyntaxNode* node, bool isMember)
@@ -1179,7 +1190,7 @@ SyntaxVisitor::Action TypeChecker::visitPrefixUnaryExpression(
         }
         case SyntaxKind::PlusToken:
         case SyntaxKind::MinusToken: {
-            auto coreTy = unqualifiedAndResolved(ty_);
+            auto coreTy = enumeratedTypeAsInt(unqualifiedAndResolved(ty_));
             if (!isArithmeticType(coreTy)) {
                 diagReporter_.ExpectedExpressionOfArithmeticType(node->operatorToken());
                 return typeCheckError(node);
@@ -1188,7 +1199,7 @@ SyntaxVisitor::Action TypeChecker::visitPrefixUnaryExpression(
             break;
         }
         case SyntaxKind::TildeToken: {
-            auto coreTy = unqualifiedAndResolved(ty_);
+            auto coreTy = enumeratedTypeAsInt(unqualifiedAndResolved(ty_));
             if (!isIntegerType(coreTy)) {
                 diagReporter_.ExpectedExpressionOfIntegerType(node->operatorToken());
                 return typeCheckError(node);
@@ -1303,7 +1314,7 @@ SyntaxVisitor::Action TypeChecker::visitArraySubscriptExpression(
 {
     VISIT(node->argument());
 
-    auto argTy = unqualifiedAndResolved(ty_);
+    auto argTy = enumeratedTypeAsInt(unqualifiedAndResolved(ty_));
     if (!isIntegerType(argTy)) {
         diagReporter_.ExpectedExpressionOfIntegerType(node->argument()->lastToken());
         return typeCheckError(node);
@@ -1789,7 +1800,7 @@ bool TypeChecker::isTypeAssignableFromOtherType(
         const Type* otherTy,
         const SyntaxNode* node)
 {
-    ty = unqualifiedAndResolved(ty);
+    ty = enumeratedTypeAsInt(unqualifiedAndResolved(ty));
     otherTy = valueTypeOf(otherTy);
 
     return ((isArithmeticType(ty) && isArithmeticType(otherTy))
